@@ -136,6 +136,22 @@ example : exProg.wf = true ∧ specOutcome 60 exProg st0 = some ⟨[0, 1, 3, 6, 
   · rfl
   · decide
 
+/-- a switch with a tag, `fallthrough`, a `break` inside a clause and a default clause -/
+def exSwitch : Stmt :=
+  .seq (.assign 0 (.lit 0))
+    (.loop (.cmp .lt (.var 0) (.lit 4))
+      (.switch
+        (.cons (.cmp .eq (.var 0) (.lit 0)) (.print (.lit 100)) true
+        (.cons (.cmp .eq (.var 0) (.lit 1)) (.seq (.ite (.cmp .eq (.var 0) (.lit 0)) .brk .skip) (.print (.lit 101))) false
+        (.cons (.cmp .eq (.var 0) (.lit 2)) .cont false
+        (.cons (.cmp .eq (.lit 0) (.lit 0)) (.print (.lit 199)) false .nil)))))
+      (.assign 0 (.bin .add (.var 0) (.lit 1))))
+
+example : exSwitch.wf = true ∧ specOutcome 60 exSwitch st0 = some ⟨[100, 101, 199], false⟩ := by
+  constructor
+  · rfl
+  · decide
+
 /-- … and a division by zero ends in a panic after the output produced so far -/
 example : specOutcome 10 (.seq (.print (.lit 5)) (.print (.bin .quo (.lit 1) (.var 0)))) st0 = some ⟨[5], true⟩ := by
   decide
